@@ -164,11 +164,15 @@ func (s *Stream) ReadRune() (r rune, size int, err error) {
 		return 0, 0, errWrongStreamType
 	}
 
+	wasPast := s.endOfStream == endOfStreamPast
 	r, n, err := s.buf.ReadRune()
 	s.position += int64(n)
 	s.lastRuneSize = n
 	if errors.Is(err, io.EOF) {
 		s.lastRuneSize = -1 // This read hit the end of stream. It can be unread.
+		if wasPast {
+			s.lastRuneSize = -2 // The stream was already past the end. Unreading doesn't bring it back.
+		}
 	}
 	s.checkEOS(err)
 	return r, n, err
@@ -177,8 +181,10 @@ func (s *Stream) ReadRune() (r rune, size int, err error) {
 func (s *Stream) UnreadRune() error {
 	if s.lastRuneSize < 0 {
 		// The last read hit the end of stream. There's nothing to unread but the end of stream itself.
+		if s.lastRuneSize == -1 {
+			s.endOfStream = endOfStreamAt
+		}
 		s.lastRuneSize = 0
-		s.endOfStream = endOfStreamAt
 		return nil
 	}
 
